@@ -1015,15 +1015,15 @@ func explore(cfg exploreCfg, first int, seed uint64) exploreOut {
 			return
 		}
 		if depth == cfg.length {
-			novel := false
+			sampled := cfg.wantCoq && cfg.quota > 0 && leaf%stride == offset
+			lastNovel := -1
 			if cfg.wantCoq {
-				for _, sg := range pathSigs {
+				for i, sg := range pathSigs {
 					if !covered[sg] {
-						novel = true
+						lastNovel = i
 					}
 				}
 			}
-			willRecord := cfg.wantCoq && cfg.quota > 0 && (novel || leaf%stride == offset)
 			leaf++
 			rep.Sizes[fmt.Sprintf("len%d", depth)]++
 			var checks []string
@@ -1032,12 +1032,13 @@ func explore(cfg exploreCfg, first int, seed uint64) exploreOut {
 				if complaint != "" {
 					h.violation(rep, complaint, map[string]any{"reducer_sequence": seq})
 				}
-				if willRecord {
+				if sampled {
 					checks = append(checks, rc.coq())
 				}
 			}
-			if willRecord {
-				// re-run the history with the probes recorded
+			switch {
+			case sampled:
+				// a full case: the history re-run with the probes recorded, all pairs diffed
 				h2 := newHistory(c)
 				for _, o := range h.ops {
 					h2.push(c, o, true)
@@ -1056,10 +1057,38 @@ func explore(cfg exploreCfg, first int, seed uint64) exploreOut {
 				for _, sg := range pathSigs {
 					covered[sg] = true
 				}
-				out.cases = append(out.cases, coqCase{text: h2.coq(checks), sigs: append([]uint64(nil), pathSigs...), novel: novel})
+				out.cases = append(out.cases, coqCase{text: h2.coq(checks), sigs: append([]uint64(nil), pathSigs...)})
 				if len(out.samples) < 1 {
 					out.samples = append(out.samples, map[string]any{"ops": h2.strs(), "last_version": fmt.Sprint(h2.refs[len(h2.refs)-1].sorted)})
 				}
+			case lastNovel >= 0:
+				// a light case, recorded for coverage: the shortest prefix that shows every shape
+				// transition of this history not yet in the sample, a few diffs, one reducer walk
+				p := lastNovel + 1
+				h2 := newHistory(c)
+				for _, o := range h.ops[:p] {
+					h2.push(c, o, true)
+				}
+				var ds []diffCheck
+				for i := 0; i < 4; i++ {
+					h2.diffPair(c, c.rng.Intn(p+1), c.rng.Intn(p+1), false, &ds)
+				}
+				if len(ds) > 4 {
+					ds = ds[len(ds)-4:]
+				}
+				fwd := make([]int, p+1)
+				for i := range fwd {
+					fwd[i] = i
+				}
+				rc, _ := checkReducer(fwd, h2.versions, h2.refs, rep)
+				checks = []string{rc.coq()}
+				for _, d := range ds {
+					checks = append(checks, d.coq())
+				}
+				for _, sg := range pathSigs[:p] {
+					covered[sg] = true
+				}
+				out.cases = append(out.cases, coqCase{text: h2.coq(checks), sigs: append([]uint64(nil), pathSigs[:p]...), novel: true})
 			}
 			return
 		}
@@ -1206,40 +1235,22 @@ func main() {
 				rep.Samples = append(rep.Samples, o.samples...)
 			}
 		}
-		// the Coq sample: first every history that adds a shape transition not yet covered
-		// (greedy, in branch order), then the evenly spread ones, up to coqmax
+		// the Coq sample: the evenly spread full cases (round-robin over the branches, up to
+		// coqmax), then every light case that adds a shape transition not yet covered
 		covered := map[uint64]bool{}
-		taken := map[[2]int]bool{}
-		for bi, o := range outs {
-			for ci, cs := range o.cases {
-				adds := false
-				for _, sg := range cs.sigs {
-					if !covered[sg] {
-						adds = true
-					}
-				}
-				if adds && len(cases) < *coqMax {
-					for _, sg := range cs.sigs {
-						covered[sg] = true
-					}
-					cases = append(cases, cs.text)
-					taken[[2]int{bi, ci}] = true
-					rep.Histogram["coq_cases_for_coverage"]++
-				}
-			}
-		}
-		rep.Histogram["shape_transitions_in_coq_sample"] = len(covered)
 		for round := 0; len(cases) < *coqMax; round++ {
 			added := false
-			for bi, o := range outs {
+			for _, o := range outs {
 				n := 0
-				for ci, cs := range o.cases {
-					if cs.novel || taken[[2]int{bi, ci}] {
+				for _, cs := range o.cases {
+					if cs.novel {
 						continue
 					}
 					if n == round && len(cases) < *coqMax {
 						cases = append(cases, cs.text)
-						taken[[2]int{bi, ci}] = true
+						for _, sg := range cs.sigs {
+							covered[sg] = true
+						}
 						added = true
 					}
 					n++
@@ -1249,6 +1260,28 @@ func main() {
 				break
 			}
 		}
+		rep.Histogram["coq_cases_full"] = len(cases)
+		for _, o := range outs {
+			for _, cs := range o.cases {
+				if !cs.novel || rep.Histogram["coq_cases_for_coverage"] >= 6**coqMax {
+					continue
+				}
+				adds := false
+				for _, sg := range cs.sigs {
+					if !covered[sg] {
+						adds = true
+					}
+				}
+				if adds {
+					for _, sg := range cs.sigs {
+						covered[sg] = true
+					}
+					cases = append(cases, cs.text)
+					rep.Histogram["coq_cases_for_coverage"]++
+				}
+			}
+		}
+		rep.Histogram["shape_transitions_in_coq_sample"] = len(covered)
 		rep.Exhaustive = true
 		how := "each applied to the latest version"
 		if branching {
